@@ -190,6 +190,13 @@ def build_module(case):
     pos, mode = case["pos"], case["mode"]
     other = (v + v[:1] + (b"x" if isinstance(v, bytes) else "x"))
     lit = _lit(v)
+    if case.get("raw_obs") and isinstance(v, str):
+        # the observed string is spelled with its own characters: non-ASCII text to the left of the snapshot call
+        try:
+            repr(v).encode("utf-8")
+            lit = repr(v)
+        except UnicodeEncodeError:
+            pass
 
     def prev_of(expected_prev_src):
         if mode == "create":
@@ -268,9 +275,9 @@ def _strat_e2e(tier):
         st.binary(max_size=8).map(lambda b: ("b", list(b))),
     )
     return st.builds(
-        lambda sv, pos, mode, fmt: {sv[0]: sv[1], "pos": pos, "mode": mode, "fmt": fmt},
+        lambda sv, pos, mode, fmt, raw: {sv[0]: sv[1], "pos": pos, "mode": mode, "fmt": fmt, "raw_obs": raw},
         sv, st.sampled_from(POSITIONS), st.sampled_from(["create", "create", "fix", "update"]),
-        st.sampled_from(FORMATS),
+        st.sampled_from(FORMATS), st.sampled_from([False, False, True]),
     )
 
 
